@@ -6,6 +6,14 @@ import os
 VERIF = os.path.dirname(os.path.dirname(os.path.abspath(__file__)))
 
 CHECKS = {
+    "C10": dict(
+        category="model_checking", design_ref="DESIGN.md 5/C10",
+        text="The statement (Clamp over limb-encoded integers, ranges derived from bit widths) is checked by TLC for range, identity, idempotence, "
+             "nearest bound and monotonicity over a boundary grid; TLC enumerates the input classes (18 source kinds incl. named types x every range "
+             "boundary and power of two x offsets x float fraction / next-up / next-down), the harness converts each with the real functions and TLC "
+             "validates every recorded conversion (plus exhaustive 8/16-bit sources, +-4096 neighbourhoods, random values) against Clamp and monotonicity.",
+        note="Trusted: TLC, math/big projection of inputs/outputs to 24-bit limbs, int/uint being 64-bit. 32-bit sources are not swept exhaustively; NaN excluded.",
+        technique="TLA+ spec (limb arithmetic) + TLC lemma check; TLC-enumerated input classes; TLC trace validation of recorded conversions"),
     "C19": dict(
         category="model_checking", design_ref="DESIGN.md 5/C19",
         text="TLC checks exhaustively (<=4 pages x <=2 items, <=12 calls, static and stream) that the cursor algorithm as coded "
